@@ -75,6 +75,9 @@ func c11Prop(t *testing.T, r *hx.Run) func(c c11Case) hx.Verdict {
 			if f.Kind == "reset-after-open" {
 				p.Plugin.SpinUs = map[string]int64{"open": 600} // OnOpenMessage takes a while
 			}
+			if f.Kind == "reset-before-open" {
+				p.Plugin.SpinUs = map[string]int64{"caps": 600} // GetCapabilities takes a while
+			}
 		}
 		for _, f := range c.Faults {
 			if f.Glued && p.Plugin.SpinUs == nil {
@@ -210,6 +213,50 @@ func c11Prop(t *testing.T, r *hx.Run) func(c c11Case) hx.Verdict {
 						fail("stopped-dialling", "fault %d (%s): no (finished) dial attempt within %v", fi, f.Kind, limit)
 						return
 					}
+					w.Settle()
+				case "accept-at-retry":
+					// the dial completes at the very instant the connect-retry timer gives up on
+					// it (the hand-over takes a moment of real time, whatever the context says): if
+					// corebgp adopts the connection all the same, it is a connection like any other
+					setPlan(memnet.DialPlan{Kind: memnet.Hold, SpinUs: 200})
+					if !w.Net.WaitDials(done+1, limit) {
+						fail("stopped-dialling", "fault %d (%s): no dial attempt within %v", fi, f.Kind, limit)
+						return
+					}
+					setPlan(memnet.DialPlan{Kind: memnet.Refuse}) // (the attempt in flight keeps its plan)
+					if wait := w.Net.Dials()[done].At + retry - w.Net.Since(); wait > 0 {
+						time.Sleep(wait)
+					}
+					w.Net.Release(remote)
+					w.Settle()
+					if cn := w.Net.Dials()[done].Conn; cn != nil && !cn.Snapshot().LocalClosed && len(cn.Snapshot().Writes) > 0 {
+						before := w.Sessions(p.Remote)
+						toState(cn, stEstablished)
+						if w.Sessions(p.Remote) != before+1 {
+							fail("adopted-connection-dead", "fault %d: the dial completed as the connect-retry timer expired, corebgp sent its OPEN on the connection, but a full handshake does not establish a session", fi)
+							return
+						}
+						end(cn, "close")
+					}
+				case "reset-before-open":
+					// the remote accepts and resets while the plugin still builds its
+					// capabilities: corebgp's OPEN cannot be written
+					setPlan(memnet.DialPlan{Kind: memnet.Accept})
+					if !w.Net.WaitDials(done+1, limit) {
+						fail("stopped-dialling", "fault %d (%s): no dial attempt within %v", fi, f.Kind, limit)
+						return
+					}
+					memnet.Spin(int64(f.DelayMs)) // (microseconds here)
+					cn := w.Net.Dials()[done].Conn
+					if cn == nil {
+						// the socket was not even built yet: the reset comes a little later (in OpenSent)
+						w.Settle()
+						cn = w.Net.Dials()[done].Conn
+					}
+					if cn != nil {
+						cn.RemoteReset()
+					}
+					setPlan(memnet.DialPlan{Kind: memnet.Refuse})
 					w.Settle()
 				case "reset-after-open":
 					setPlan(memnet.DialPlan{Kind: memnet.Accept})
@@ -403,8 +450,10 @@ func c11PlanFor(f c11Fault) memnet.DialPlan {
 		return memnet.DialPlan{Kind: memnet.Refuse, Delay: time.Duration(f.DelayMs) * time.Millisecond}
 	case "stall":
 		return memnet.DialPlan{Kind: memnet.Stall}
-	case "close", "reset", "cease", "reset-after-open":
+	case "close", "reset", "cease", "reset-after-open", "reset-before-open":
 		return memnet.DialPlan{Kind: memnet.Accept}
+	case "accept-at-retry":
+		return memnet.DialPlan{Kind: memnet.Hold, SpinUs: 200}
 	}
 	return memnet.DialPlan{Kind: memnet.Refuse}
 }
@@ -423,13 +472,15 @@ func genC11(rt *rapid.T) c11Case {
 		if c.Passive {
 			f.Kind = pick(rt, "pkind", "inbound", "inbound", "wait")
 		} else {
-			f.Kind = pick(rt, "kind", "refuse", "refuse", "refuse-after", "stall", "close", "reset", "cease", "inbound", "wait", "reset-after-open")
+			f.Kind = pick(rt, "kind", "refuse", "refuse", "refuse-after", "stall", "close", "reset", "cease", "inbound", "wait", "reset-after-open", "reset-before-open", "accept-at-retry")
 		}
 		switch f.Kind {
 		case "refuse":
 			f.N = rapid.IntRange(1, 5).Draw(rt, "nref")
 		case "reset-after-open":
 			f.DelayMs = pick(rt, "rao", 50, 150, 300, 450)
+		case "reset-before-open":
+			f.DelayMs = pick(rt, "rbo", 20, 100, 250)
 		case "refuse-after":
 			f.DelayMs = rapid.IntRange(1, c.ConnRetryMs-1).Draw(rt, "rdelay")
 		case "wait":
